@@ -72,6 +72,7 @@ func pathSels() []pathSel {
 		{name: "exc-bin", kind: "exclude", exclude: []string{"*.bin"}},
 		{name: "above-1000", kind: "above", above: 1000},
 		{name: "above-1025", kind: "above", above: 1025},
+		{name: "above-1", kind: "above", above: 1}, // broad selection by size: every non-empty file, nested .gitattributes files included
 		{name: "fixup", kind: "fixup", fixup: true},
 		{name: "no-rewrite", kind: "no-rewrite", noRewrite: true},
 	}
@@ -110,6 +111,7 @@ var quickShapes = map[string]bool{
 	"fork/tracked": true,
 	"pushed/lfs": true, "exotic-msg/lfs": true,
 	"merge-asym/modes": true, "merge-asym@same/plain": true, "merge-asym@skew/lfs": true,
+	"lin3-pull/plain": true, "lin3-pull/lfs": true, "fork-pull/lfs": true, "fork-pull/attrs": true,
 }
 
 func makeShapes(thorough bool) []shape {
@@ -464,6 +466,7 @@ func (j *judge) compareTrees(op, kind string, before, after *snap, o, n string, 
 	sort.Strings(sorted)
 	var changed []string
 	tag := op + ":" + kind
+	j.nestedAttrs(tag, before, after, o, n, names)
 	for _, p := range sorted {
 		eo, okO := fo[p]
 		en, okN := fn[p]
@@ -555,6 +558,91 @@ func (j *judge) compareTrees(op, kind string, before, after *snap, o, n string, 
 	return changed
 }
 
+// nestedAttrs is the clause for .gitattributes files BELOW the root: they are never part of a selection (whatever
+// --include, --above, --everything or no option at all admit) and migrate only ever writes the ROOT .gitattributes, so in
+// every rewritten commit they exist exactly where they existed, with the same mode and the very same blob (statement:
+// same mode, same content, and exactly the selected paths changed representation).
+func (j *judge) nestedAttrs(tag string, before, after *snap, o, n string, names map[string]bool) {
+	var nested []string
+	for p := range names {
+		if path.Base(p) == ".gitattributes" && p != ".gitattributes" {
+			nested = append(nested, p)
+		}
+	}
+	sort.Strings(nested)
+	for _, p := range nested {
+		eo, okO := before.files[o][p]
+		en, okN := after.files[n][p]
+		j.count("clause.nested-gitattributes.compared")
+		where := fmt.Sprintf("commit %s -> %s: nested attributes file %q", short(o), short(n), p)
+		switch {
+		case !okO:
+			j.bad("C12:nested-gitattributes:"+tag+":added", where+" appeared", nil)
+		case !okN:
+			j.bad("C12:nested-gitattributes:"+tag+":removed", where+" disappeared", nil)
+		case eo.mode != en.mode:
+			j.bad("C12:nested-gitattributes:"+tag+":mode-changed", fmt.Sprintf("%s: mode %s became %s", where, eo.mode, en.mode), nil)
+		case eo.id != en.id:
+			how := "content-changed"
+			if lo, ln := before.logic[eo.id], after.logic[en.id]; ln.isPtr != lo.isPtr {
+				how = "representation-changed"
+			}
+			j.bad("C12:nested-gitattributes:"+tag+":"+how, fmt.Sprintf("%s: blob %s became %s (%q): .gitattributes files are never selected, and only the root one is written by migrate", where, short(eo.id), short(en.id), trunc(after.blobs[en.id])), nil)
+		default:
+			j.count("clause.nested-gitattributes.kept")
+		}
+	}
+}
+
+// refsRetargeted is the clause 'refs retargeted': every local reference (anything but refs/remotes/*: branches, tags,
+// refs/pull/*, refs/changes/*, custom namespaces) whose target commit lies in the selected range and whose history had
+// to change (the commit itself or one of its ancestors holds a path that had to change representation) points at a
+// rewritten commit afterwards, namely at the image of its old target; it never keeps pointing at the un-rewritten copy.
+// Manual: 'after migration only local refs will be updated even when --everything is specified ... refs/heads/foo will
+// be updated ..., but refs/remotes/origin/foo will not'.
+func (j *judge) refsRetargeted(before, after *snap, rng map[string]bool, so *stepOut) {
+	var mustChange []string
+	for o, ch := range so.changed {
+		if len(ch) > 0 {
+			mustChange = append(mustChange, o)
+		}
+	}
+	sort.Strings(mustChange)
+	for _, name := range before.refNames() {
+		cls := refClass(name)
+		ra, ok := after.refs[name]
+		if cls == "remote" || !ok {
+			continue // clause in checkRefs
+		}
+		_, typB, idB := before.peel(before.refs[name])
+		_, typA, idA := after.peel(ra)
+		if typB != "commit" || typA != "commit" || !rng[idB] {
+			continue
+		}
+		need := false
+		for _, o := range mustChange {
+			if o == idB || before.isAncestor(o, idB) {
+				need = true
+				break
+			}
+		}
+		if !need {
+			j.count("clause.ref-retargeted.history-needs-no-change")
+			continue
+		}
+		j.count("clause.ref-retargeted.compared." + cls)
+		img, paired := so.pairs.fwd[idB]
+		switch {
+		case idA == idB:
+			j.bad("C12:shape:ref-not-retargeted:"+cls, fmt.Sprintf("%s still points at %s: its history is in the selected range and holds paths that had to change representation, but the ref was left on the un-rewritten commits", name, short(idB)), nil)
+		case paired && img != idA && img != idB: // img == idB: the pairing was recorded through another ref that stayed behind (reported there)
+			j.bad("C12:shape:ref-retargeted-elsewhere:"+cls, fmt.Sprintf("%s: old target %s is rewritten as %s, but the ref points at %s", name, short(idB), short(img), short(idA)), nil)
+		default:
+			j.count("clause.ref-retargeted.moved-to-image")
+		}
+	}
+}
+
 // pruneCause classifies why the prune that ends an export may have dropped the object of the (untouched) pointer blob:
 // every (commit, path) that has the blob while the commit's first parent does not have it there is an introduction.
 // excused = every introduction lies in a commit that exists on a configured remote: prune is documented to delete
@@ -564,6 +652,25 @@ func pruneCause(w *gitx.World, before *snap, blob string) (cause string, excused
 	pushed := before.pushedCommits(w)
 	allPushed := true
 	gitlink := false
+	// commits that a branch or a tag reaches (what prune's scan for unpushed objects, `git log --branches --tags`, looks at)
+	byBranchOrTag := map[string]bool{}
+	for _, name := range before.refNames() {
+		if c := refClass(name); c != "branch" && c != "tag" {
+			continue
+		}
+		if _, typ, id := before.peel(before.refs[name]); typ == "commit" {
+			q := []string{id}
+			for len(q) > 0 {
+				id, q = q[0], q[1:]
+				if byBranchOrTag[id] || before.commits[id] == nil {
+					continue
+				}
+				byBranchOrTag[id] = true
+				q = append(q, before.commits[id].parents...)
+			}
+		}
+	}
+	onlyOtherRefs := true
 	for id, c := range before.commits {
 		for p, e := range before.files[id] {
 			if e.mode == "160000" {
@@ -605,11 +712,18 @@ func pruneCause(w *gitx.World, before *snap, blob string) (cause string, excused
 				if !pushed[id] {
 					allPushed = false
 				}
+				if byBranchOrTag[id] {
+					onlyOtherRefs = false
+				}
 			}
 		}
 	}
 	if len(kinds) > 0 && allPushed {
 		return "pushed-commits-only", true
+	}
+	if len(kinds) > 0 && onlyOtherRefs {
+		// finding 8: the pointer exists only in commits that no branch and no tag reaches (refs/pull/*, refs/changes/*, ...)
+		return "commit-reachable-only-from-ref-outside-heads-and-tags", false
 	}
 	if len(kinds) == 1 && kinds["pointer-replaces-binary-blob"] {
 		return "pointer-replaces-binary-blob", false
@@ -876,6 +990,7 @@ func (ev *env) doCase(sh *shape, op string, cd caseDef, id string, sample map[st
 				j.attrClause(stepOp, cd.ps.kind, before, after, o, n, fo, lfsTracked(ev.w, ev.scratch, after, n))
 			}
 		}
+		j.refsRetargeted(before, after, rng, so)
 		for o := range rng {
 			if _, ok := so.pairs.fwd[o]; !ok {
 				j.count("range-commit-reachable-only-from-a-remote-ref-image-not-compared")
@@ -1038,7 +1153,7 @@ func TestVerifC12(t *testing.T) {
 	c.Bounds["patterns.planned_cases"] = plannedPat
 	c.Rule = "one case = (shape = topology x file profile, operation in {import, export, import-then-export}, path selection, ref selection of the topology); the explored set is the COMPLETE product " +
 		"shapes x operations x path selections x ref selections (export and import-then-export take the selections that have an --include; --no-rewrite is crossed with the default ref selection only, as the manual says the ref options are ignored). " +
-		"Topologies (<=5 commits): single, linear 2/3/4, fork, merge (with and without the side branch ref), asymmetric merge (sides of length 1 and 2), the three merge graphs additionally with all commits in the same second and with the side line dated before the root (clock skew), two roots merged, octopus of three roots, tag on a commit no branch reaches, revert/reapply, first commit pushed to a real remote, bare repository, and one history with commit messages as other tools write them (no trailing LF, CRLF, encoding header, empty); refs: branches, lightweight + annotated tags, tag of a tag, refs/pull/*, refs/remotes/*. " +
+		"Topologies (<=5 commits): single, linear 2/3/4, fork, merge (with and without the side branch ref), asymmetric merge (sides of length 1 and 2), the three merge graphs additionally with all commits in the same second and with the side line dated before the root (clock skew), two roots merged, octopus of three roots, tag on a commit no branch reaches, revert/reapply, first commit pushed to a real remote, bare repository, and one history with commit messages as other tools write them (no trailing LF, CRLF, encoding header, empty); refs: branches, lightweight + annotated tags, tag of a tag, refs/pull/*, refs/remotes/*; REF-KIND dimension: linear history with refs/pull/1/head on the inner commit and refs/changes/01/1/2 and refs/pull/3/head on the tip next to the branch (lin3-pull), fork whose side commit is reached only by refs/pull/2/head plus refs/keep-around/k0 on the root (fork-pull), each crossed with --everything and --include-ref=<that ref> (lin3-pull also with --include-ref of branch and pull ref together, fork-pull also with the default selection). " +
 		"File profiles (four trees each, differing by add/modify/delete/rename/mode flip/type change/attribute change): plain (sizes 200..5000 incl. 1000/1023/1024, two paths with identical content, blanks and non-ASCII in a path, identical subtrees under two parents), modes (executable, symlinks, gitlink, empty file, file<->directory, symlink<->file with the same blob), lfs (root and nested .gitattributes that change between commits, files already stored as pointers, raw files at tracked paths, pointer at an untracked path, empty tracked file, one object under two paths), tracked (everything already in LFS), mix (all of them in one tree). " +
 		"Scenario 'patterns' (selection dimension): the complete product  pattern selections x {import, import-then-export on a history of plain blobs without .gitattributes; export on the same history with every file in LFS under `* filter=lfs`} x ref selections, over histories with files at the root, in dir/, dir/sub/, other/, other/sub/, dirx/ and a name (`sub`) that is a regular file at the root in some commits and a directory in others; selections = every grammar element P as --include=P, as --include=*.bin --exclude=P, and pairs --include=P --exclude=Q (quick: a stated 3x6 sub-product; thorough: every ordered pair); the grammar is in bounds['patterns.grammar']. " +
 		"distinct_nontrivial = distinct cases in which at least one commit was actually rewritten (for import-then-export: in both steps)"
@@ -1049,7 +1164,9 @@ func TestVerifC12(t *testing.T) {
 		"selected paths: regular files (100644/100755) other than */.gitattributes whose path matches --include and not --exclude, evaluated by `git check-attr` on a scratch .gitattributes (manual: 'functionally equivalent to the pattern matching format of .gitattributes'); --above=N: blob size > N ('above the given size'; size == N is reported under its own fingerprint); --fixup: filter attribute of the path is 'lfs' according to the .gitattributes files of that same commit (git read-tree + check-attr --cached), 'on a per-commit basis'; no option = every file",
 		"scenario 'patterns', clause (3b): in a history whose files all start in the from-state of the operation and agree with git's reading of the original .gitattributes (import: plain blob and filter is not lfs; export: pointer and filter=lfs), after the migration a file is a pointer iff `git check-attr --cached filter` on the rewritten commit (i.e. git's own reading of the .gitattributes that migrate wrote there; manual: the patterns are added to .gitattributes 'as given by those flags', 'as if git lfs track had been run') says lfs; the lines migrate appends come after the pre-existing ones and the pre-existing line `* filter=lfs ...` coincides with no pattern of the grammar, so the last-match rule of gitattributes(5) makes git's reading exactly the meaning of the patterns",
 		"a pattern element with a trailing slash matches directories only (gitignore(5)/gitattributes(5)), hence no file; a deviation on a path whose verdict would differ without that slash is reported under the class trailing-slash-pattern-on-regular-file",
-		"import must turn a selected non-empty non-pointer file into a pointer; export must turn a selected pointer into a non-pointer; every other path (unselected, symlink, gitlink, empty, already in the target representation) must keep its blob id; .gitattributes files at any depth may change freely and are excluded from every comparison",
+		"import must turn a selected non-empty non-pointer file into a pointer; export must turn a selected pointer into a non-pointer; every other path (unselected, symlink, gitlink, empty, already in the target representation) must keep its blob id; the ROOT .gitattributes may change freely (migrate writes it) and is excluded from every comparison",
+		"nested .gitattributes files (any depth below the root) are never selected, whatever the selection admits (no option, --everything, --above=1b, --include=*), and migrate writes the root file only: in every compared commit pair they must exist at the same paths with the same mode and the same blob id (C12:nested-gitattributes:*)",
+		"clause 'refs retargeted': a reference outside refs/remotes/ (branch, tag, refs/pull/*, refs/changes/*, any other namespace; manual: 'only local refs will be updated ... refs/heads/foo will be updated with the --everything option, but refs/remotes/origin/foo will not') whose target commit is in the selected range, and whose history (that commit or an ancestor in the range) holds a path that had to change representation, must not stay on the old commit and must point at the image of its old target (C12:shape:ref-not-retargeted:<class>, C12:shape:ref-retargeted-elsewhere:<class>); refs/notes, refs/stash, refs/bisect, refs/replace are not commit histories of the project and are not enumerated",
 		"symlinks and gitlinks are compared by object id (pointer resolution does not apply to them)",
 		"annotated tags (tag name, tagger, message) are compared as part of 'the same ... messages'; a difference is reported under C12:tag-changed:*",
 		"a non-zero exit of a documented-valid invocation is reported as C12:migrate-failed:* (the statement presupposes a completed migration); --yes is always passed (raw files at LFS-tracked paths make the work tree look modified)",
